@@ -83,7 +83,8 @@ class Invalid(Exception):
     pass
 
 
-DEFAULT_SIDX = {0: [0], 1: [0], 2: [0, 0, 0, 0], 3: [0, 0, 0, 0], 4: [0, 0, 0, 0, 0]}
+DEFAULT_SIDX = {0: [0], 1: [0], 2: [0, 0, 0, 0], 3: [0, 0, 0, 0], 4: [0, 0, 0, 0, 0], 5: [0, 0, 0], 6: [0, 0, 0, 0, 0],
+                7: [0, 0, 0, 0, 1], 8: [0, 0, 0, 0, 1]}
 
 
 def fresh(vals, es):
@@ -204,6 +205,24 @@ class Ref:
                 c.elems = [fresh(iota(v, r * noff), esz(dt))]
                 c.inds = [fresh(iota(r - 1, noff), isz(it))]
             self.slots[s] = c
+        elif op == "mk":
+            s, k, dt, it, n, v = a
+            self.need_dead(s)
+            if k not in (5, 6, 7, 8) or (n == 0 and k < 7):
+                raise Invalid("mk")
+            if k == 5:       # DenseMatrix n x 2
+                c = Cont(5, dt, it, [2 * n, n, 2])
+                c.elems = [fresh(iota(v, 2 * n), esz(dt))]
+            elif k == 6:     # CSCR 3 x 2, n entries in one used row
+                c = Cont(6, dt, it, [6, 3, 2, n, 1])
+                c.elems = [fresh(iota(v, n), esz(dt))]
+                c.inds = [fresh([i % 2 for i in range(n)], isz(it)), fresh([0, n], isz(it)), fresh([0], isz(it))]
+            else:            # SparseVector / SparseVectorBlocked<2> of size n+3 with n entries
+                ln = n if k == 7 else 2 * n
+                c = Cont(k, dt, it, [n + 3, n, n, n + 3, 1])
+                c.elems = [fresh(iota(v, ln), esz(dt))]
+                c.inds = [fresh(iota(0, n), isz(it))]
+            self.slots[s] = c
         elif op == "adopt":
             s, b = a
             self.need_dead(s)
@@ -267,6 +286,18 @@ class Ref:
             ca = self.slots[s]
             if ca is not None and ca.kind != cb.kind:
                 raise Invalid("conv kind")
+            if cb.kind >= 7:
+                # SparseVector(Blocked)::convert is documented as "a deep copy in any case" (sort(); clone(other))
+                if ca is not None and not ca.sidx:
+                    raise Invalid("F-C20-4: convert into a cleared / moved-from sparse vector throws")
+                if s == b:
+                    raise Abort("sparse vector convert is a clone: self-clone aborts")
+                tdt, tit = (dt, it) if ca is None else (ca.dt, ca.it)
+                c = Cont(cb.kind, tdt, tit, cb.sidx)
+                c.elems = [fresh(read(e), esz(tdt)) for e in cb.elems]
+                c.inds = [fresh(read(e), isz(tit)) for e in cb.inds]
+                self.slots[s] = c
+                return
             if s == b:
                 return            # x.convert(x) is a no-op (checked before anything else, also for a range view)
             if cb.foreign:
@@ -337,7 +368,7 @@ class Ref:
         elif op == "lay":
             l, s = a
             ca = self.need_alive(s)
-            if not (0 <= l < NLAY) or ca.kind < 2:
+            if not (0 <= l < NLAY) or ca.kind < 2 or ca.kind > 4:
                 raise Invalid("lay")
             lk = 1 if ca.kind == 4 else 0
             old = self.lays[l]
@@ -412,7 +443,7 @@ class Ref:
         return out
 
 
-OP_ARITY = {"new": 6, "mat": 9, "band": 6, "adopt": 2, "range": 4, "clone": 4, "conv": 4, "xconv": 2, "move": 2,
+OP_ARITY = {"mk": 6, "new": 6, "mat": 9, "band": 6, "adopt": 2, "range": 4, "clone": 4, "conv": 4, "xconv": 2, "move": 2,
             "clear": 1, "destroy": 1, "format": 2, "write": 5, "lay": 2, "mlay": 5, "ldrop": 1, "end": 0}
 
 
@@ -562,9 +593,11 @@ def propose(rng, ref, selfbias=0.0):
         if not dead:
             return None
         a = rng.choice(dead)
-        k = rng.choice([0, 0, 1, 2, 2, 3, 4])
+        k = rng.choice([0, 0, 1, 2, 2, 3, 4, 5, 6, 7, 8])
         dt, it = rng.randrange(2), rng.randrange(2)
         v = rng.randrange(1, 90)
+        if k >= 5:
+            return ["mk", S(a), S(k), S(dt), S(it), S(rng.choice([1, 2, 3, 4] if k < 7 else [0, 1, 2, 3])), S(v)]
         if k <= 1:
             return ["new", S(a), S(k), S(dt), S(it), S(rng.choice([0, 1, 2, 3, 4, 5, 6, 8])), S(v)]
         if k == 4:
@@ -706,6 +739,12 @@ CORPUS = [
     "new 0 0 0 0 6 10 range 2 0 2 1 new 1 0 0 0 3 50 move 2 1 format 2 7 write 0 0 0 1 9 destroy 1 destroy 0 destroy 2 end",
     "new 0 1 1 1 4 10 new 1 1 1 1 2 50 range 2 0 2 1 move 1 2 format 1 7 clone 3 1 3 0 destroy 1 destroy 2 destroy 0 destroy 3 end",
     "new 0 1 1 1 4 10 range 2 0 2 1 new 1 1 1 1 2 50 clone 3 1 0 0 move 2 1 format 2 7 destroy 3 destroy 1 destroy 0 destroy 2 end",
+    # DenseMatrix, CSCR, SparseVector, SparseVectorBlocked: clone modes, convert same/other type, moves
+    "mk 0 5 0 0 2 10 clone 1 0 0 0 conv 2 0 1 1 clone 2 0 2 5 move 3 0 destroy 0 destroy 1 destroy 2 destroy 3 end",
+    "mk 0 6 0 1 3 10 clone 1 0 2 0 conv 2 0 1 1 conv 3 0 0 1 clone 2 0 0 5 clear 0 destroy 0 destroy 1 destroy 2 destroy 3 end",
+    "mk 0 7 0 0 3 10 clone 1 0 0 0 conv 2 0 0 0 conv 3 0 1 1 clone 3 0 1 5 conv 1 2 0 0 format 1 9 destroy 0 destroy 1 destroy 2 destroy 3 end",
+    "mk 0 8 1 1 2 10 clone 1 0 2 0 conv 2 0 1 1 conv 3 0 0 0 move 1 1 destroy 3 destroy 0 destroy 1 destroy 2 end",
+    "mk 0 7 0 0 0 10 clone 1 0 0 0 conv 2 0 0 0 destroy 0 destroy 1 destroy 2 end",
     # cross-type clone (all modes) into a live container
     "mat 0 2 0 0 2 2 1 3 1 mat 1 2 1 1 1 1 1 7 0 clone 1 0 0 5 clone 1 0 2 5 clone 1 0 1 5 clone 1 0 4 5 destroy 0 destroy 1 end",
 ]
@@ -750,6 +789,89 @@ def cross_type_cases():
     return out
 
 
+def small_alphabet(ref):
+    """the finite op alphabet of the exhaustive stream at a state: 3 container slots, 1 layout slot; a new container
+    always goes to the lowest free slot (slots are interchangeable), every live container is source and target"""
+    S = str
+    alive = [s for s in range(3) if ref.slots[s] is not None]
+    dead = [s for s in range(3) if ref.slots[s] is None]
+    ops = []
+    if dead:
+        d = S(dead[0])
+        ops += [["new", d, "0", "0", "0", "2", "10"], ["mat", d, "2", "0", "0", "1", "2", "1", "30", "0"],
+                ["mk", d, "7", "0", "0", "1", "50"]]
+    for b in alive:
+        cb = ref.slots[b]
+        for a in alive + dead[:1]:
+            ca = ref.slots[a]
+            if ca is not None and ca.kind != cb.kind:
+                continue
+            for m in range(5):
+                ops.append(["clone", S(a), S(b), S(m), "70"])
+            if ca is None:
+                ops += [["conv", S(a), S(b), "0", "0"], ["conv", S(a), S(b), "1", "1"]]
+            else:
+                ops.append(["conv", S(a), S(b), "0", "0"])
+            if ca is None or (ca.dt, ca.it) == (cb.dt, cb.it):
+                ops.append(["move", S(a), S(b)])
+        ops += [["clear", S(b)], ["destroy", S(b)], ["format", S(b), "5"]]
+        if cb.kind <= 1 and dead:
+            d = S(dead[0])
+            ops += [["range", d, S(b), "1", "1"], ["adopt", d, S(b)], ["xconv", d, S(b)]]
+        if cb.kind >= 2:
+            ops.append(["lay", "0", S(b)])
+    if ref.lays[0] is not None:
+        for a in [x for x in alive if ref.slots[x].kind in (2, 3)] + dead[:1]:
+            ops.append(["mlay", S(a), "0", "2", "1", "90"])
+        ops.append(["ldrop", "0"])
+    return ops
+
+
+def teardown(ref):
+    ops = []
+    views = [s for s in range(NSLOT) if ref.slots[s] is not None and ref.slots[s].foreign]
+    owners = [s for s in range(NSLOT) if ref.slots[s] is not None and not ref.slots[s].foreign]
+    ops += [["destroy", str(s)] for s in views + owners]
+    ops += [["ldrop", str(l)] for l in range(NLAY) if ref.lays[l] is not None]
+    return ops + [["end"]]
+
+
+def exhaustive_histories(maxlen):
+    """ALL op sequences of length <= maxlen over the small alphabet (followed by the teardown); sequences whose last
+    op is a documented abort end there; sequences that would use a dangling view are outside the property's guard"""
+    out = []
+
+    def rec(ref, prefix):
+        if prefix:
+            out.append(" ".join(" ".join(t) for t in prefix + teardown(ref)))
+        if len(prefix) == maxlen:
+            return
+        for t in small_alphabet(ref):
+            trial = copy.deepcopy(ref)
+            try:
+                trial.apply(t)
+            except Abort:
+                out.append(" ".join(" ".join(x) for x in prefix + [t]))
+                continue
+            except (Invalid, IndexError):
+                continue
+            if trial.dangling():
+                continue
+            rec(trial, prefix + [t])
+
+    rec(Ref(), [])
+    return out
+
+
+# F-C20-4 (see FINDINGS_C20.md): SparseVector(Blocked)::convert into a cleared / moved-from target throws
+# std::out_of_range (sort() -> _scalar_index.at(4)).  Compared with the model only (the model is faithful), not judged.
+EDGE_SV = [
+    "mk 0 7 0 0 2 10 mk 1 7 0 0 1 5 clear 1 conv 1 0 0 0",
+    "mk 0 8 0 0 2 10 mk 1 8 0 0 1 5 move 2 1 conv 1 0 0 0",
+    "mk 0 7 1 1 2 10 mk 1 7 0 0 1 5 clear 1 conv 1 0 0 0",
+]
+
+
 def nontrivial(case):
     """a history in which an array with >= 2 owners loses an owner that is not the youngest live container"""
     ops = split_ops(case)
@@ -789,7 +911,7 @@ def describe(case):
         keys.add("op:" + t[0])
         if t[0] == "clone":
             keys.add("clone-mode:" + t[3])
-        if t[0] in ("new", "mat"):
+        if t[0] in ("new", "mat", "mk"):
             keys.add("kind:" + t[2])
         if t[0] == "band":
             keys.add("kind:4")
@@ -862,8 +984,11 @@ def main(argv):
         length = rng.randrange(3, 12) if u < 0.25 else rng.randrange(12, 60) if u < 0.9 else rng.randrange(60, 200 if quick else 600)
         cases.append(gen_history(rng, length))
     null_cases = [gen_history(rng, rng.randrange(4, 40), selfbias=0.15) for _ in range(300 if quick else 3000)]
-    abort_cases = [gen_abort_case(rng) for _ in range(200 if quick else 2000)]
+    abort_cases = ["mk 0 7 0 0 2 10 conv 0 0 0 0", "mk 0 8 1 0 1 10 clone 1 0 0 0 conv 1 1 0 0"] + \
+        [gen_abort_case(rng) for _ in range(200 if quick else 2000)]
     asan_cases = cases[:len(CORPUS) + len(cross) + (500 if quick else 6000)] + null_cases[:100 if quick else 1000] + abort_cases[:60 if quick else 600]
+    exh = exhaustive_histories(4)
+    exh_describe = lambda c: ["exh-len:%d" % sum(1 for t in (split_ops(c) or []) if t[0] != "end")]
     streams = [
         vlib.Stream("lifetimes", cases, [binary], drv, oracle=oracle, canon=canon, nontrivial=nontrivial,
                     describe=describe, signature=signature),
@@ -873,13 +998,23 @@ def main(argv):
                     nontrivial=lambda c: True, describe=describe, signature=signature),
         vlib.Stream("lifetimes-asan", asan_cases, [asan], drv, oracle=oracle, canon=canon, nontrivial=nontrivial,
                     describe=describe, signature=signature),
+        vlib.Stream("exhaustive-small", exh, [binary], drv, oracle=oracle, canon=canon,
+                    nontrivial=lambda c: True, describe=exh_describe, signature=signature),
     ]
+    streams.append(vlib.Stream("edge-sparse-vector-convert", EDGE_SV, [binary], drv, oracle=None, canon=canon,
+                               nontrivial=lambda c: False, describe=describe, signature=signature))
+    if not quick:
+        streams.append(vlib.Stream("exhaustive-small-asan", exh, [asan], drv, oracle=oracle, canon=canon,
+                                   nontrivial=lambda c: False, describe=exh_describe, signature=signature))
     rule = ("random histories (3..600 ops) over 8 container slots (DenseVector, DenseVectorBlocked<2>, CSR, BCSR<2,2>, "
-            "Banded; data Q/float, index u32/u64) and 4 SparseLayout slots: construct/adopt/range/clone(5 modes, same "
+            "Banded, DenseMatrix, CSCR, SparseVector, SparseVectorBlocked<2>; data Q/float, index u32/u64) and 4 SparseLayout slots: construct/adopt/range/clone(5 modes, same "
             "and cross type)/convert/move(self, ctor, assign)/clear/destroy/format/write/layout take/make/assign/drop, "
             "random teardown order, MemoryPool::finalize at the end; plus 144 deterministic cross-type clone(5 modes)/convert "
             "cases (DT equal/IT different and vice versa, live and fresh target, writes through both sides) and "
-            "view<->owner move assignments; full pool+container state compared after every "
+            "view<->owner move assignments; plus EVERY op sequence of length <= 4 "
+            "over 3 containers + 1 layout from a finite alphabet (new DV/CSR, clone 5 modes, convert same/other type, "
+            "move, clear, destroy, format, range, adopt, dense<->blocked, layout take/make/drop, incl. self and aborting "
+            "ops); full pool+container state compared after every "
             "op; non-trivial = an array with >= 2 owners loses an owner that is not the youngest live container")
     rc = vlib.run_pipeline(PROP, args.tier, args.seed, lean, streams, t0, assumptions=[
         "chunk identity up to renaming by first appearance (malloc addresses are not modelled)",
